@@ -175,6 +175,7 @@ def run(ck):
             reqs.append(('lex', 3000, src)); reqs.append(('expr', 3000, src))
             meta.append((i, sp, toks, withrest, src))
     ans = fl.run_probe(probe, reqs, jobs=14)
+    ans, _ = fl.confirm_hangs(probe, reqs, ans, lambda r, a: True, factor=4)
     # model on the REAL token streams
     mlines = []
     for k, (i, sp, toks, withrest, src) in enumerate(meta):
@@ -284,6 +285,15 @@ def mutant_compare(ck, ref, probe, info, outcomes):
         reqs.append(('lex', 400, s_)); reqs.append(('expr', 400, s_))
     ans = fl.run_probe(probe, reqs, jobs=14)
     mlines = []
+    pre = []
+    for k in range(len(srcs)):
+        rt = fl.lex_tokens(fl.split_answer(ans[2 * k])[0]) if ans[2 * k] else None
+        pre.append('parse 0 ' + ' '.join(rt[5:-1] if rt else []))
+    premodel = vlib.run_lines(ref, pre, timeout=600)
+    # a `hang` the model does not predict may be the wall-clock limit firing on a busy machine: confirm with a longer limit
+    hang_pred = {2 * k + 1 for k in range(len(srcs)) if premodel[k] == 'hang'}
+    ans, requeried = fl.confirm_hangs(probe, reqs, ans, lambda r, a: True, factor=8, skip=hang_pred)
+    outcomes['mutant:unpredicted-hang-answers-retried-ok'] = requeried
     for k in range(len(srcs)):
         rt = fl.lex_tokens(fl.split_answer(ans[2 * k])[0]) if ans[2 * k] else None
         mlines.append('parse 0 ' + ' '.join(rt[5:-1] if rt else []))
